@@ -10,7 +10,7 @@ from vlib import gbool, glist
 from checks import execframe_common as X
 
 PID = "C08"
-DFLAGS = ["promoted_dispatch", "evm_wipes_revisions", "checkproof_nil_err", "nil_validator", "nil_address"]
+DFLAGS = ["promoted_dispatch", "evm_wipes_revisions", "checkproof_nil_err", "nil_validator", "nil_to", "nil_from"]
 
 STUB_EFFECT = {"Add": "SeRawWrite", "AddObject": "SeRawWrite", "Callee": "SeReadOnly", "Caller": "SeReadOnly", "CrossInvoke": "SeCross",
                "CrossInvokeEVM": "SeEvm", "CurrentCaller": "SeReadOnly", "Delete": "SeJournaledWrite", "EnableAudit": "SeReadOnly",
@@ -25,7 +25,7 @@ KIND = {"string": "KStr", "[]uint8": "KBytes", "uint64": "KU64", "int32": "KI32"
 
 def gdcfg(flags):
     return ("{| d_promoted_dispatch := %s; d_evm_wipes_revisions := %s; d_checkproof_nil_err := %s; d_nil_validator := %s; "
-            "d_evm_interchain_norecover := false; d_nil_address := %s |}") % tuple(gbool(f in flags) for f in DFLAGS)
+            "d_evm_interchain_norecover := false; d_nil_to := %s; d_nil_from := %s |}") % tuple(gbool(f in flags) for f in DFLAGS)
 
 
 def get_surface(exe):
@@ -190,8 +190,8 @@ def corpus(surface):
                        dtx=dtx("PfVerified", True, "(BIbtp BUnknown)", True), tag="rule_true")]))
     out.append(h([dict(tx={"t": "ibtp", "from": "u:0", "ibtp": X.ibtp(1, frm="1356:chainX:svc1")},
                        dtx=dtx("PfValidatorNil", True, "(BIbtp BUnknown)", True), tag="nil_validator")]))
-    out.append(h([dict(tx={"t": "transfer", "from": "u:0", "to": "u:2", "amt": "5", "mut": {"nil_to": 1}}, dtx=dtx("PfNotIbtp", True, "BNilAddress", True), tag="nil_to")]))
-    out.append(h([dict(tx={"t": "transfer", "from": "u:0", "to": "u:2", "amt": "5", "mut": {"nil_from": 1}}, dtx=dtx("PfNotIbtp", True, "BNilAddress", True), tag="nil_from")]))
+    out.append(h([dict(tx={"t": "transfer", "from": "u:0", "to": "u:2", "amt": "5", "mut": {"nil_to": 1}}, dtx=dtx("PfNotIbtp", True, "BNilTo", True), tag="nil_to")]))
+    out.append(h([dict(tx={"t": "transfer", "from": "u:0", "to": "u:2", "amt": "5", "mut": {"nil_from": 1}}, dtx=dtx("PfNotIbtp", True, "BNilFrom", True), tag="nil_from")]))
     # a rejected proof in every position of a block whose length is not a multiple of the group size, parallel grouping
     for pos in range(7):
         ops = []
